@@ -18,8 +18,19 @@ class _CodeBuilder(CodeBuilder):
 
 
 def generate_source_code(docstring, parsed):
+    # Names that the grammar (or one of its ancestors) defines shadow the
+    # built-in expression constructors ("Opt", "Sep", ...).
+    defined = set()
+    ancestor = parsed
+    while ancestor is not None:
+        defined.update(x.name for x in ancestor.body if getattr(x, 'name', None))
+        ancestor = ancestor.extends
+
     # Convert the parse tree into a list of parsing expressions.
-    nodes = parser.transform(parsed.body, _create_parsing_expression)
+    nodes = parser.transform(
+        parsed.body,
+        lambda tree: _create_parsing_expression(tree, defined),
+    )
 
     out = _CodeBuilder()
     out.add_docstring(docstring)
@@ -354,7 +365,7 @@ def _update_rule_references(rules, extends):
     visit(rules, check_refs)
 
 
-def _create_parsing_expression(tree):
+def _create_parsing_expression(tree, defined=()):
     if isinstance(tree, parser.StringLiteral):
         ignore_case = tree.value.endswith(('i', 'I'))
         value = ast.literal_eval(tree.value[:-1] if ignore_case else tree.value)
@@ -408,7 +419,7 @@ def _create_parsing_expression(tree):
 
     if isinstance(tree, parser.Postfix) and isinstance(tree.operator, parser.ArgList):
         left, args = tree.left, tree.operator.args
-        if isinstance(left, ex.Ref) and hasattr(ex, left.name):
+        if isinstance(left, ex.Ref) and hasattr(ex, left.name) and left.name not in defined:
             def unwrap(x):
                 return eval(x.source_code) if isinstance(x, ex.PythonExpression) else x
             return getattr(ex, left.name)(
